@@ -14,7 +14,7 @@ pub const DEF: PropDef = PropDef {
     run,
     replay,
     level: "exploration",
-    rule: "metamorphic cases = (pattern class, suite, backend, a set of (direction, nonce, payload length) items with nonces from boundary values {0,1,2^32-1,2^32,2^63,2^64-2} and random 64-bit values, and a call script that writes and reads the items in arbitrary order with repetitions); oracle: every write of an item yields the same bytes every time, every read under the item's nonce returns the original payload every time, and the bytes equal the message a STATEFUL sender of an identically keyed session produces when positioned at that nonce. Thread stress: 8 threads share one &StatelessTransportState per endpoint and perform interleaved reads/writes; every result must equal the sequentially pre-computed one. Non-trivial = a script with at least one repeated or out-of-order read; distinct by (config, items, script)",
+    rule: "metamorphic cases = (pattern class, suite, backend, a set of (direction, nonce, payload length) items with nonces from boundary values {0,1,2^32-1,2^32,2^63,2^64-2} and random 64-bit values, and a call script that writes and reads the items in arbitrary order with repetitions); oracle: every write of an item yields the same bytes every time, every read under the item's nonce returns the original payload every time, and the bytes equal the message a STATEFUL sender of an identically keyed session produces when positioned at that nonce. After a rekey - automatic, rekey_manually with BOTH keys in one call, one direction per call in opposite orders on the two sides, or automatic then manual - applied alike to the stateless objects and their stateful twins, the same equalities must hold. Thread stress: 8 threads share one &StatelessTransportState per endpoint and perform interleaved reads/writes; every result must equal the sequentially pre-computed one. Non-trivial = a script with at least one repeated or out-of-order read; distinct by (config, items, script)",
     technique: "metamorphic/differential property testing with proptest (stateless vs stateful sender; repeat/reorder invariance) + multi-threaded stress with a schedule-independent oracle",
     assumptions: &["thread interleavings are sampled by stress only: the harness does not own the scheduler, so a rare interleaving can be missed; the oracle is schedule-independent and cannot raise false alarms"],
     panic_is_violation: false,
@@ -137,16 +137,39 @@ fn oracle(c: &Case, acc: &mut Acc) -> CaseResult {
         acc.label(format!("threads:{n}"));
     }
     // after a synchronised rekey of both directions the same must hold with the rekeyed keys
-    if c.threads <= 1 && c.seed % 3 == 0 {
+    if c.threads <= 1 && c.seed % 2 == 0 {
         let (mut ti, mut tr, mut fi, mut fr) = (ti, tr, fi, fr);
-        ti.rekey_outgoing();
-        tr.rekey_incoming();
-        fi.rekey_outgoing();
-        if !oneway {
-            tr.rekey_outgoing();
-            ti.rekey_incoming();
-            fr.rekey_outgoing();
+        let variant = (c.seed / 2) % 4;
+        let (ka, kb) = (crate::engine::expand32(c.seed, 4001), crate::engine::expand32(c.seed, 4002));
+        if variant == 0 || variant == 3 {
+            ti.rekey_outgoing();
+            tr.rekey_incoming();
+            fi.rekey_outgoing();
+            if !oneway {
+                tr.rekey_outgoing();
+                ti.rekey_incoming();
+                fr.rekey_outgoing();
+            }
         }
+        if variant == 1 || variant == 3 {
+            // both keys in ONE call, on the stateless objects and on their stateful twins
+            ti.rekey_manually(Some(&ka), Some(&kb));
+            tr.rekey_manually(Some(&ka), Some(&kb));
+            fi.rekey_manually(Some(&ka), Some(&kb));
+            fr.rekey_manually(Some(&ka), Some(&kb));
+        }
+        if variant == 2 {
+            // one direction per call, in opposite orders on the two sides
+            ti.rekey_initiator_manually(&ka);
+            ti.rekey_responder_manually(&kb);
+            tr.rekey_manually(None, Some(&kb));
+            tr.rekey_manually(Some(&ka), None);
+            fi.rekey_initiator_manually(&ka);
+            fi.rekey_responder_manually(&kb);
+            fr.rekey_responder_manually(&kb);
+            fr.rekey_initiator_manually(&ka);
+        }
+        acc.label(format!("rekey_variant:{variant}"));
         for (k, it) in items.iter().enumerate() {
             let f = if it.r_to_i { &mut fr } else { &mut fi };
             f.verif_set_sending_nonce(it.nonce);
